@@ -59,7 +59,7 @@ m("C07", "C07-label-ceiling-dropped", "R07-sbx:NewLabel", ("compile.go", "\tif r
 m("C08", "C08-raisecompile-plain-panic", "R08-panics:compile:raiseCompileError", ("compile.go", "\tpanic(&CompileError{context: context, Line: line, Message: msg})", "\t_ = &CompileError{context: context, Line: line, Message: msg}\n\tpanic(msg)"))
 m("C08", "C08-lexer-error-string-panic", "R08-panics:parse:(*Lexer).Error", ("parse/lexer.go", "\tpanic(lx.scanner.Error(lx.Token.Str, message))", "\tpanic(lx.scanner.Error(lx.Token.Str, message).Error())"))
 m("C08", "C08-scanstring-no-eof-exit", "R08-eof:(*Scanner).scanString", ("parse/lexer.go", "\t\tif ch == '\\n' || ch == '\\r' || ch < 0 {\n\t\t\treturn sc.Error(buf.String(), \"unterminated string\")", "\t\tif ch == '\\n' || ch == '\\r' {\n\t\t\treturn sc.Error(buf.String(), \"unterminated string\")"))
-m("C08", "C08-multiline-no-eof-exit", "R08-eof:(*Scanner).scanMultilineString", ("parse/lexer.go", "\t\tif ch < 0 {\n\t\t\treturn sc.Error(buf.String(), \"unterminated multiline string\")", "\t\tif ch == 0 {\n\t\t\treturn sc.Error(buf.String(), \"unterminated multiline string\")"))
+m("C08", "C08-multiline-no-eof-exit", "R08-eof:(*Scanner).scanMultilineB", ("parse/lexer.go", "\t\tif ch < 0 {\n\t\t\treturn sc.Error(buf.String(), \"unterminated multiline string\")", "\t\tif ch == 0 {\n\t\t\treturn sc.Error(buf.String(), \"unterminated multiline string\")"))
 m("C08", "C08-compilestmt-drops-goto", "R08-astkinds:stmt:ast.GotoStmt", ("compile.go", "\tcase *ast.GotoStmt:\n\t\tcompileGotoStmt(context, st)\n", ""))
 m("C08", "C08-relop-missing-ge", "R08-astkinds:operator:ast.RelationalOpExpr:compileRelationalOpExprAux:>=", ("compile.go", "\tcase \">=\":\n\t\tcode.AddABC(OP_LE, 0^flip, c, b, sline(expr))\n", ""))
 # ---- C09
@@ -215,5 +215,16 @@ m("C06", "C06-status-direct-parent-only", "R06-guard:Status:normal-walks-resumer
 m("C06", "C06-resume-nesting-unbounded", "R06-guard:coResume:nesting-bounded", ("coroutinelib.go", "\tif depth >= maxResumeDepth {\n\t\t// every nested resume runs on the Go stack of its resumer\n\t\tL.RaiseError(\"C stack overflow\")\n\t}\n", "\t_ = depth\n"))
 
 m("C11", "C11-thread-context-from-creator", "R11-threadctx:NewThread:context-from-main-thread", ("state.go", "\t\tthread.ctx, f = context.WithCancel(base)", "\t\t_ = base\n\t\tthread.ctx, f = context.WithCancel(ls.ctx)"))
+
+m("C01", "C01-constructor-open-ended-for-keyed-call", "R01-constructor:compileTableExpr:open-ended-only-for-positional-last", ("compile.go", "\t\t\tb := pending\n\t\t\tif lastvararg {", "\t\t\tb := pending\n\t\t\tif islast && isVarArgReturnExpr(field.Value) {"))
+m("C01", "C01-constructor-flush-by-total-count", "R01-constructor:compileTableExpr:pending-reset-by-flush", ("compile.go", "\t\tif pending == FieldsPerFlush || (islast && pending > 0) || lastvararg {", "\t\tif (arraycount != 0 && arraycount%FieldsPerFlush == 0) || (islast && pending > 0) || lastvararg {"), ("compile.go", "\t\t\tpending = 0\n", "\t\t\tif islast {\n\t\t\t\tpending = 0\n\t\t\t}\n"))
+m("C01", "C01-paren-vararg-straight-into-local", "R01-constructor:compileExpr:single-vararg-into-local-via-temporary", ("compile.go", "\t\tif ec.ctype == ecLocal && ec.varargopt == 0 && context.RegTop() > sreg+1 {\n\t\t\t// VARARG leaves the stack top just above its last result: with other locals living above\n\t\t\t// the target the value is fetched into a temporary first\n\t\t\tcode.AddABC(OP_VARARG, reg, 2, 0, sline(ex))\n\t\t\tcode.AddABC(OP_MOVE, sreg, reg, 0, sline(ex))\n\t\t\treturn 0\n\t\t}\n", ""))
+
+m("C08", "C08-formfeed-not-blank", "R08-comment:blanks:whitespace1", ("parse/lexer.go", "const whitespace1 = 1<<'\\t' | 1<<' ' | 1<<'\\f' | 1<<'\\v'", "const whitespace1 = 1<<'\\t' | 1<<' ' | 1<<'\\v'"))
+m("C08", "C08-decimal-escape-wraps", "R08-comment:scanEscape:decimal-escape-is-a-byte", ("parse/lexer.go", "\t\t\tif val > 255 {\n\t\t\t\treturn sc.Error(string(bytes), \"escape sequence too large\")\n\t\t\t}\n", ""))
+m("C08", "C08-short-comment-with-bracket-prefix-rejected", "R08-comment:skipComments:long-form-needs-second-bracket", ("parse/lexer.go", "\t\t\tvar level int\n\t\t\tlevel, ch = sc.countSep(sc.Next())\n\t\t\tif ch == '[' {\n\t\t\t\tvar buf bytes.Buffer\n\t\t\t\tif err := sc.scanMultilineBody(level, &buf); err != nil {\n\t\t\t\t\treturn sc.Error(buf.String(), \"invalid multiline comment\")\n\t\t\t\t}\n\t\t\t\treturn nil\n\t\t\t}\n", "\t\t\tvar buf bytes.Buffer\n\t\t\tif err := sc.scanMultilineString(sc.Next(), &buf); err != nil {\n\t\t\t\treturn sc.Error(buf.String(), \"invalid multiline comment\")\n\t\t\t}\n\t\t\treturn nil\n"))
+
+m("C07", "C07-call-result-count-unchecked", "R07-width:compileFuncCallExpr:OP_CALL:C", ("compile.go", "\tif ec.varargopt+2 > opMaxArgsC || b > opMaxArgsB {", "\tif b > opMaxArgsB {"))
+m("C07", "C07-last-exposes-setlist-data-word", "R07-width:codeStore.Last:hides-setlist-data-word", ("compile.go", "\tif cd.pc > 1 {\n\t\tif prev := cd.codes[cd.pc-2]; opGetOpCode(prev) == OP_SETLIST && opGetArgC(prev) == 0 {\n\t\t\t// the last word is the batch number of an extended SETLIST: data, not an instruction\n\t\t\treturn opInvalidInstruction\n\t\t}\n\t}\n", ""))
 if __name__ == "__main__":
     main()
